@@ -728,3 +728,27 @@ CONTROLS['C17'] += [
         lambda n: M.parse_stmt('self.max_len = max(self.max_len, seq_len)\nself.upper_bound = min(self.upper_bound, self.max_len / (1 - self.max_padding_rate))')),
       'new-upper_bound-from-len', tier='quick'),
 ]
+CONTROLS['C19'] += [
+    C('dataset memo moved to the class body (MEMO)',
+      F('database', 'Database', lambda n: isinstance(n, ast.FunctionDef) and n.name == '__init__',
+        lambda n: M.parse_stmt('_dataset_weak_ref_dict = weakref.WeakValueDictionary()')), 'MEMO', tier='quick', error_ok=True),
+]
+CONTROLS['C11'] += [
+    C('non-emptiness test counts regular files only (G1)',
+      expr_replace('core', '_DiskCacheWrapper.__init__', "len(list(Path(cache_dir).glob('*'))) > 0",
+                   'any(p.is_file() for p in Path(cache_dir).iterdir())'), 'emptiness-test-considers-every-entry', tier='quick'),
+]
+CONTROLS['C20'] += [
+    C('the wrapper profiles a frozen copy (PR)',
+      expr_replace('core', 'ProfilingDataset.__init__', 'input_dataset.copy()', 'input_dataset.copy(freeze=True)'),
+      'pipeline-copied-unfrozen', tier='quick'),
+]
+CONTROLS['C05'] += [
+    C('parallel map with keys hands the helper a live iterator (U)',
+      expr_replace('core', 'ParMapDataset.__iter__', 'self.input_dataset.items()', 'self.input_dataset.__iter__(with_key=True)'),
+      'helper-gets-the-iterable', tier='quick'),
+    C('parallel map hands the helper iter(input) (U)',
+      F('core', 'ParMapDataset.__iter__', lambda n: isinstance(n, ast.Call) and A.dotted(n.func) == 'lazy_parallel_map'
+        and len(n.args) > 1 and A.src(n.args[1]) == 'self.input_dataset',
+        lambda n: (n.args.__setitem__(1, M.parse_expr('iter(self.input_dataset)')), n)[1]), 'helper-gets-the-iterable'),
+]
